@@ -2,6 +2,7 @@ import CoapVerif.Lemmas.OscorePlain
 import CoapVerif.Lemmas.OscoreSeq
 import CoapVerif.Lemmas.OscoreCtx
 import CoapVerif.Lemmas.OscoreCtxSeq
+import CoapVerif.Model.OscoreDispatch
 /-
 C14 — OSCORE protection round-trips, matches RFC 8613, and tampering is detected by the tag.
 
@@ -1432,5 +1433,85 @@ example :
     SrvStepKeepsClient [1] (.decrypt [1] (1, 0) [6] [9] [0x99] false false) ∧ SrvStepKeepsClient [1] (.respIn [1] true) ∧
     SrvStepKeepsClient [1] (.protect [1]) ∧ SrvStepLeaves [1] (.request [2] (0, 0) [6] [0x0b] [0x03] true 0) := by
   refine ⟨by decide, by decide, by decide, by decide, by decide, by decide, by decide, Or.inr rfl, trivial, trivial, (by decide : ([2] : Bytes) ≠ [1])⟩
+
+/-! ### Round R14c: outer class E options incl. RFC 9177, OSCORE option of more than 255 bytes, OSCORE only resources -/
+
+/-- Q-Block1 (19) and Q-Block2 (31) are class E (RFC 9177 §4.1) in S's table and in the skip list of
+`coap_oscore_decrypt_pdu` (after fix 44cf280); the sender protects them as inner options. -/
+theorem qblock_is_class_e :
+    classE 19 = true ∧ classE 31 = true ∧ M.Oscore.decryptSkips 19 = true ∧ M.Oscore.decryptSkips 31 = true ∧
+    M.Oscore.protectClass 19 = 3 ∧ M.Oscore.protectClass 31 = 3 ∧ classUOnly 19 = false ∧ classUOnly 31 = false := by
+  decide
+
+/-- **No outer class E option reaches the unprotected message** (§8.2 / §8.4 step 1), for EVERY outer option list — whatever
+was added on the path — and every inner list: an option of class E (now including Q-Block1 / Q-Block2) in the merged list is
+one of the inner, protected options. -/
+theorem outer_class_e_discarded (outer inner : List Opt) (o : Opt) (ho : o ∈ mergeOpts outer inner)
+    (he : classE o.1 = true) : o ∈ inner := by
+  unfold mergeOpts at ho
+  rw [List.mem_merge] at ho
+  rcases ho with h | h
+  · rw [List.mem_filter] at h
+    have := h.2
+    simp [he] at this
+  · exact h
+
+example : ((19, [8]) : Opt) ∉ mergeOpts [(3, [1]), (9, []), (19, [8])] [(11, [2])] := fun h => by
+  have := outer_class_e_discarded _ _ _ h (by decide)
+  simp at this
+
+/-- §2: an OSCORE option value of more than 255 bytes is no OSCORE option — S rejects the message (request and response,
+every cipher, context and binding) and `oscore_decode_option_value` rejects it too.  (In libcoap `coap_pdu_parse()` already
+refuses such an option, so the `uint8_t osc_size` of `coap_oscore_decrypt_pdu` never narrows anything: op `olen`.) -/
+theorem oversized_oscore_option_rejected (cipher : Bytes → Bytes → Bytes) (c : Ctx) (m : Msg) (ov : Bytes)
+    (hov : oscoreValue m.opts = some ov) (hl : 255 < ov.length) :
+    unprotectRequest cipher c m = .rej ∧ (∀ b, unprotectResponse cipher c b m = .rej) ∧
+    M.Oscore.decodeOptionValue ov = R.rej := by
+  have hd : optDecode ov = none := by
+    cases ov with
+    | nil => simp at hl
+    | cons f r =>
+      have hr : r.length ≥ 255 := by simp at hl; omega
+      simp [optDecode, hr]
+  refine ⟨?_, ?_, ?_⟩
+  · unfold unprotectRequest
+    rw [hov]
+    by_cases hp : m.payload = [] <;> simp [hp, hd]
+  · intro b
+    unfold unprotectResponse
+    rw [hov]
+    by_cases hp : m.payload = [] <;> simp [hp, hd]
+  · rw [option_value_eq_spec.2 ov, hd]
+
+example : oscoreValue ({ type := 0, code := 1, mid := 0, token := [], opts := [(9, List.replicate 256 0)], payload := [1] } : Msg).opts =
+    some (List.replicate 256 0) ∧ 255 < (List.replicate 256 (0 : UInt8)).length :=
+  ⟨rfl, by rw [List.length_replicate]; omega⟩
+
+/-- **An unprotected request never reaches the handler of an OSCORE only resource**, whatever the session has seen before
+(any list of protected requests — verified or not — and plain requests): it is answered 4.01 or not at all, never with a
+protected response; and on any session the handler runs exactly for a VERIFIED protected request or a plain request to a
+resource that is not OSCORE only.  (`session->oscore_encryption`, which stays set after the first verified request, decided
+before fix a9dbe3e: `dispatchOld`, example below.) -/
+theorem plain_request_never_reaches_oscore_only_handler (hc : Nat) (s : M.Oscore.DSess) (rs : List M.Oscore.DReq) :
+    ((M.Oscore.dispatch hc (M.Oscore.dispatchRun hc s rs) (.plain true)).handler = false ∧
+     ((M.Oscore.dispatch hc (M.Oscore.dispatchRun hc s rs) (.plain true)).out = .nothing ∨
+      (M.Oscore.dispatch hc (M.Oscore.dispatchRun hc s rs) (.plain true)).out = .clear 129) ∧
+     (M.Oscore.dispatch hc (M.Oscore.dispatchRun hc s rs) (.plain true)).sess = M.Oscore.dispatchRun hc s rs) ∧
+    (∀ r, (M.Oscore.dispatch hc (M.Oscore.dispatchRun hc s rs) r).handler = true ↔
+      ((∃ only, r = .osc true only) ∨ r = .plain false)) := by
+  generalize M.Oscore.dispatchRun hc s rs = t
+  refine ⟨⟨?_, ?_, ?_⟩, ?_⟩
+  · simp [M.Oscore.dispatch]
+  · cases h : t.enc <;> simp [M.Oscore.dispatch, h]
+  · simp [M.Oscore.dispatch]
+  · intro r
+    cases r with
+    | plain only => cases only <;> simp [M.Oscore.dispatch]
+    | osc v only => cases v <;> simp [M.Oscore.dispatch]
+
+/-- the witness: after ONE verified protected request the old test let a plain request to the OSCORE only resource through -/
+example : (M.Oscore.dispatchOld 68 (M.Oscore.dispatch 68 ⟨false⟩ (.osc true true)).sess (.plain true)).handler = true ∧
+    (M.Oscore.dispatch 68 (M.Oscore.dispatch 68 ⟨false⟩ (.osc true true)).sess (.plain true)).handler = false ∧
+    (M.Oscore.dispatchOld 68 ⟨false⟩ (.plain true)).handler = false := by decide
 
 end Coap.C14
